@@ -490,7 +490,7 @@ def check_vec(ctx, scs):
             if len(evs) < 3 * sc.get("reps", 1) and v["verdict"] == "ok":
                 raise tlc.MachineryFailure("model scenario produced %d vectorised calls, expected >= 3: %r" % (len(evs), sc))
         else:
-            key = ("vec", tuple((i["k"], i["n"]) for i in sc["inputs"]), tuple(sc["mask"] or ()), sc["mask"] is None, sc["bs"],
+            key = ("vec", tuple((i["k"], i.get("n", 0)) for i in sc["inputs"]), tuple(sc["mask"] or ()), sc["mask"] is None, sc["bs"],
                    sc["dt"], sc["ret"], tuple(sc["kw"]), sc["meta"])
             nontrivial = any(e["res"] == "val" and e["out"]["len"] >= 2 and len(e["inputs"]) >= 1 for e in evs)
         ctx.case(key, nontrivial=nontrivial)
@@ -873,7 +873,6 @@ def ext_scenarios(ctx, rnd):
             nrows = rnd.randint(1, 4)
             inputs, frac_pos = [], {}
             arity = rnd.randint(0 if not vec else 1, 3)
-            mask = []
             for j in range(arity):
                 fr = rnd.random() < 0.3
                 if vec and (j == 0 or rnd.random() < 0.5):
